@@ -98,6 +98,11 @@ CLAIMED = {
    text="Structural conservativeness obligations of a flow-insensitive fact map, decided over every statement kind and arm: the modified-variable collector covers every assigning/nesting statement kind in value and pointer form; each nesting arm of OptimizeStatements invalidates every nested block, the if arm resets facts between and after its branches, the default arm invalidates, and only return statements start dead-code elimination; hoisting is behind a whitelist whose default refuses; integer folds are behind non-zero tests and literal kinds are never promoted; Reset discards optimiser facts and every Compile* entry resets before optimising; level 0 is the identity.",
    note="Does not cover semantic preservation of individual rewrites over all values (equality of results across levels). Known residue: LICM may still move a plain assignment out of a loop that runs zero times. Trusted: go/ast, go/types, go/ssa.",
    ref="DESIGN.md §3 C03"),
+ "C01": dict(
+   technique="static analysis: dispatch exhaustiveness over the syntactic forms computed from pkg/ast, scope-freshness def-use with loop membership, map-range determinism audit, documentation-vs-parser precedence table, precedence-climbing boundary evaluation, depth-budget pairing path rule",
+   text="Structural necessary conditions decided over every form and site: each Expr/Statement/Pattern/Literal kind and each BinOp/UnOp has an evaluation arm (parser and evaluator agree on the operator set; exceptions listed by type with reasons); every block and match arm runs in an environment created for it in that function and, inside loops, per iteration; no order-dependent loop ranges a Go map unsorted in either engine; every documented operator has the documented precedence level in the parser, the climbing loop continues at equal precedence and recurses at precedence+1; the shared depth budget is restored on every exit.",
+   note="Does not cover values computed by operators/builtins, coercions, match semantics, error texts. The precedence sub-rule reads docs/LANGUAGE_SPECIFICATION.md (UNDECIDED, not violated, if fewer than 10 rows parse). Trusted: go/ast, go/types, go/ssa.",
+   ref="DESIGN.md §3 C01"),
 }
 
 NA_REASONS = {}
